@@ -598,3 +598,5 @@ func checkC11(c *core.Ctx) {
 	}
 	c.Assume("frames are written with one Write call each; the kernel may segment the stream arbitrarily, which the scripted connection reproduces at the Read boundary")
 }
+
+func randSrc(seed int64) *rand.Rand { return rand.New(rand.NewSource(seed)) }
